@@ -232,6 +232,20 @@ def case_special(name):
                                          "merge: %d points remain, expected %d" % (len(s.points), exp))
                     jit = cc.copy(points=cc.points + 1e-7 * rng.uniform(-1, 1, cc.points.shape))
                     jit.merge_duplicate_points(decimals=4)
+                # coarse tolerances (decimals 0, 1 and -1): grids on multiples of the tolerance with round-off sized noise
+                for dec, h in ((0, 1.0), (1, 0.1), (-1, 10.0), (0, 2.0)):
+                    for g in (fem.Rectangle(b=(3 * h, 2 * h), n=(4, 3)), fem.Cube(b=(2 * h, h, h), n=(3, 2, 2))):
+                        parts = [g, g.translate(g.points[:, 0].max(), 0)]
+                        cc = fem.mesh.concatenate(parts)
+                        cc = cc.copy(points=cc.points + 1e-9 * h * rng.uniform(-1, 1, cc.points.shape))
+                        s = cc.merge_duplicate_points(decimals=dec)
+                        exp = len(np.unique(np.round(cc.points / h), axis=0))
+                        if len(s.points) == exp:
+                            run.ok("mesh.merge_duplicate_points", unit="merge:count:coarse", config=("merge-coarse", dec, g.cell_type))
+                        else:
+                            run.fail("mesh.merge_duplicate_points", "tool=merge_duplicate_points decimals=%s clause=count" % dec,
+                                     "merge: %d points remain, expected %d" % (len(s.points), exp))
+                        fem.MeshContainer([cc.copy(), cc.translate(5 * h, 1)], merge=True, decimals=dec)
                     cont = fem.MeshContainer([m, m.translate(ext, 0)], merge=True)
                     st = cont.stack()
                     v = OC.signed_volumes(st.points, st.cells, st.cell_type)
@@ -285,7 +299,7 @@ def _required():
         req += [t + ":volume", t + ":orientation"]
     req += ["flip:double", "mirror:reflection", "rotate:isometry", "add_midpoints_edges:centroid", "add_midpoints_faces:centroid",
             "add_midpoints_volumes:centroid", "add_midpoints_edges:layout", "add_midpoints_faces:layout",
-            "add_midpoints_volumes:layout", "convert:layout", "merge:corners", "merge:separation", "merge:count",
+            "add_midpoints_volumes:layout", "convert:layout", "merge:corners", "merge:separation", "merge:count", "merge:count:coarse",
             "container:volume", "fill_between:volume"]
     return req
 
